@@ -128,6 +128,82 @@ int main() {
     std::printf("{\"e\":\"drained\",\"live\":%d}\n", g_block_live ? 1 : 0);
     g_block = nullptr;
   }
+  // --- deferred deallocation by a thread that lags behind the global epoch (the other thread changed the epoch
+  // after this thread's last quiescent state): the call rotates the thread's own request lists, which hold
+  // `pre` requests of the interval that just ended (seed c08c: an allocation after the request was recorded)
+  for (int pre = 0; pre < 5; ++pre) {
+    std::printf("{\"e\":\"baseline\",\"op\":\"retire_lagging\",\"heap\":%ld}\n", vh_live_bytes());
+    std::atomic<int> cmd{0}, done{0};
+    unodb::qsbr_thread second{[&]() noexcept {
+      int served = 0;
+      while (true) {
+        const int c = cmd.load();
+        if (c == served) {
+          std::this_thread::yield();
+          continue;
+        }
+        if (c < 0) break;
+        unodb::this_thread().quiescent();
+        served = c;
+        done.store(c);
+      }
+    }};
+    auto helper_quiescent = [&](int n) {
+      cmd.store(n);
+      while (done.load() != n) std::this_thread::yield();
+    };
+    for (int i = 0; i < pre; ++i) {
+      void* p = unodb::detail::allocate_aligned(32);
+      unodb::this_thread().on_next_epoch_deallocate(p
+#ifdef UNODB_DETAIL_WITH_STATS
+                                                    , 32
+#endif
+#ifndef NDEBUG
+                                                    , nullptr
+#endif
+      );
+    }
+    unodb::this_thread().quiescent();  // this thread is quiescent in epoch e ...
+    helper_quiescent(1);               // ... the helper is the last one: it changes the epoch to e + 1
+    g_block = unodb::detail::allocate_aligned(64);
+    g_block_live = true;
+    enumerate("retire_lagging", [] {
+      unodb::this_thread().on_next_epoch_deallocate(g_block
+#ifdef UNODB_DETAIL_WITH_STATS
+                                                    , 64
+#endif
+#ifndef NDEBUG
+                                                    , nullptr
+#endif
+      );
+    }, points);
+    cmd.store(-1);
+    second.join();
+    unodb::this_thread().quiescent();
+    unodb::this_thread().quiescent();
+    unodb::this_thread().quiescent();
+    std::printf("{\"e\":\"drained\",\"live\":%d}\n", g_block_live ? 1 : 0);
+    g_block = nullptr;
+  }
+  // --- single-thread mode: the request is executed at once
+  {
+    std::printf("{\"e\":\"baseline\",\"op\":\"retire_single\",\"heap\":%ld}\n", vh_live_bytes());
+    g_block = unodb::detail::allocate_aligned(64);
+    g_block_live = true;
+    enumerate("retire_single", [] {
+      unodb::this_thread().on_next_epoch_deallocate(g_block
+#ifdef UNODB_DETAIL_WITH_STATS
+                                                    , 64
+#endif
+#ifndef NDEBUG
+                                                    , nullptr
+#endif
+      );
+    }, points);
+    unodb::this_thread().quiescent();
+    std::printf("{\"e\":\"drained\",\"live\":%d}\n", g_block_live ? 1 : 0);
+    g_block = nullptr;
+  }
   std::printf("{\"e\":\"end\",\"points\":%ld}\n", points);
   return 0;
 }
